@@ -29,6 +29,10 @@ CLAIMS = {
         "text": "Symbolic execution of security.safe_join together with the stdlib path helpers it calls (posixpath.join/isabs interpreted from source; normpath via the stdlib's own pure-Python twin) on 1-3 untrusted components whose characters are solver variables over every 8-bit code point (incl. '/', '.', backslash, NUL), against absolute, relative, empty, root and nested base directories: on every path the query 'result is not None and normpath(result) lies outside normpath(base)' is unsat. utils.secure_filename on ASCII input: output alphabet, no leading dot, idempotence.",
         "note": "Trusted: interpreter/primitive models (per-path native replay against the real C normpath), the normpath twin (differentially tested against the C function on 22k strings each run), z3. Bounds: 1 component <= 6 chars, 2 <= 4, 3 <= 2 (quick). Filesystem end-to-end (send_from_directory, SharedDataMiddleware), Windows separators and non-ASCII filenames are outside the claim.",
     },
+    "C06": {
+        "text": "For each serialiser/parser pair (quote/unquote_header_value, dump_header with parse_list/dict_header, dump/parse_options_header, HeaderSet/parse_set_header, ETags/parse_etags, Range/parse_range_header incl. suffix and multi ranges, ContentRange, dump_age/parse_age, ResponseCacheControl/parse_cache_control_header, ContentSecurityPolicy/parse_csp_header, WWWAuthenticate token and parameter forms) both halves are executed symbolically from the real source on values of n solver characters (every 8-bit code point except CR/LF) or solver integers (bit-vector backed, rendered with up to 6 digits); the query parse(dump(v)) != v is unsat on every path. The normal-form law parse(dump(parse(h))) == parse(h) is checked for list, set and range headers on every text h of <= 4 characters.",
+        "note": "Trusted: interpreter/regex models validated per path by native replay, z3. Bounds: values <= 3 characters (quick) / 5, 1-2 values per structure, concrete token keys. HTTP dates, If-Range dates, Basic credentials and code points above U+00FF are outside the claim.",
+    },
     "C07": {
         "text": "Each parser of the HTTP utility layer (parse_options/list/dict/set_header, parse_accept_header with all four Accept classes incl. best_match/quality/membership, parse_cache_control/csp/etags/range/content_range/if_range/age, both cookie parsers, Authorization/WWWAuthenticate.from_header, get_content_length, get_host, host_is_trusted) and Request.args are executed symbolically on a header value of n solver characters over the property's alphabet (Latin-1 without control characters); on every path the query 'an exception other than a werkzeug HTTPException escapes' is unsat, and loops are unrolled under an unwinding bound whose violation is reported as inconclusive.",
         "note": "Trusted: interpreter/regex/codec models validated per path by native replay; stubs for base64.b64decode, urllib.parse.parse_qsl, datetime.timedelta and codecs.lookup (the last differentially tested each run). Bounds: text <= 4 characters (3 for the heavy targets) quick, 6/4 thorough. form/files/data, parse_date, Request.url/base_url and IDNA host names are outside the claim.",
